@@ -4,7 +4,7 @@
 # /repo must be clean and nothing else may be running on it.
 cd /repo && [ -z "$(git status --short)" ] || { echo "/repo is not clean"; exit 2; }
 sel="$*"; miss=0; n=0
-for d in /verif/seeded/*/; do
+for d in /verif/seeded/C*/; do
   s=$(basename $d); p=${s%-*}
   [ -n "$sel" ] && [[ " $sel " != *" $p "* ]] && continue
   git -C /repo apply $d/patch.diff || { echo "$s PATCH DOES NOT APPLY"; miss=$((miss+1)); continue; }
